@@ -860,12 +860,28 @@ func (fr *Frame) loopEffects(li *loopInfo) *effects {
 			}
 		}
 	}, 0, map[*ssa.Function]bool{})
-	// hidden iteration state of range loops inside this loop
+	// hidden iteration state of range loops inside this loop, and ghosts assigned by `at call` clauses
 	for b := range li.body {
 		for _, in := range b.Instrs {
 			if nx, ok := in.(*ssa.Next); ok {
 				if rs := fr.rangeIt[nx.Iter]; rs != nil {
 					e.cells[rs.cell] = true
+				}
+			}
+			var cc *ssa.CallCommon
+			switch y := in.(type) {
+			case *ssa.Call:
+				cc = &y.Call
+			case *ssa.Defer:
+				cc = &y.Call
+			}
+			if cc != nil && fr.con != nil {
+				name := calleeShortName(cc)
+				ord := fr.callOrd(in)
+				for _, ac := range fr.con.AtCalls {
+					if ac.Kind == "ghost" && ac.Callee == name && ac.Ord == ord {
+						e.ghost[ac.Ghost] = true
+					}
 				}
 			}
 		}
